@@ -97,18 +97,27 @@ pub struct KeySet {
 impl KeySet {
     pub fn insert(&mut self, k: u64) {
         self.keys.push(k);
-        if self.keys.len() - self.sorted_len > (1 << 20) {
+        self.maybe_compact();
+    }
+    /// Keep the amortised cost low: sort only when the unsorted tail is large both in
+    /// absolute terms and relative to the sorted part.
+    fn maybe_compact(&mut self) {
+        let tail = self.keys.len() - self.sorted_len;
+        if tail > (1 << 20) && tail > self.sorted_len / 2 {
             self.compact();
         }
     }
     fn compact(&mut self) {
+        if self.sorted_len == self.keys.len() {
+            return;
+        }
         self.keys.sort_unstable();
         self.keys.dedup();
         self.sorted_len = self.keys.len();
     }
     pub fn merge(&mut self, mut other: KeySet) {
         self.keys.append(&mut other.keys);
-        self.compact();
+        self.maybe_compact();
     }
     pub fn len(&mut self) -> usize {
         self.compact();
